@@ -346,7 +346,7 @@ pub fn run_c01(ctx: &Ctx) -> ! {
     let mut rep = Report::new(
         ctx,
         "exploration",
-        "every message of the bounded value model (skeleton-exhaustive over a 3-leaf alphabet within a node budget; every D-atom in every context class; permutation programs; 16-bit length sweep) x payload kinds, each rebuilt in fresh maps until every attribute iteration order was observed; built through the public API, serialised by to_bytes()/into_read(), parsed by IppParser and AsyncIppParser, compared as header + ordered groups + name->values maps + payload octets; plus every history of <= 4 (5) operations on ONE message object over {to_bytes(), 3 header mutations, 3 add()s, groups_mut().push, payload set} compared with the same history without the to_bytes() observations (a serialisation must not depend on earlier serialisations). distinct = distinct (message, payload kind); non-trivial = has at least one attribute",
+        "every message of the bounded value model (skeleton-exhaustive over a 3-leaf alphabet within a node budget; every D-atom in every context class; permutation programs; 16-bit length sweep; attributes named like the five specially treated operation attributes and their look-alikes (other ASCII case, trailing blank / NUL, '_' for '-'), alone and next to the exact name, in the first / a later operation group / a job group; pairs of DISTINCT names that collide under a normalisation (ASCII and Unicode case, trimming, NUL, NFC vs NFD, compatibility forms, truncation to 255 octets, prefix) side by side in one group and in one collection, and the empty member name; names and texts of 70 .. 33 000 octets made of 2-, 3- and 4-octet characters at every alignment) x payload kinds, each rebuilt in fresh maps until every attribute iteration order was observed; built through the public API, serialised by to_bytes()/into_read(), parsed by IppParser and AsyncIppParser, compared as header + ordered groups + name->values maps + payload octets; plus every history of <= 4 (5) operations on ONE message object over {to_bytes(), 3 header mutations, 3 add()s, groups_mut().push, payload set} compared with the same history without the to_bytes() observations (a serialisation must not depend on earlier serialisations). distinct = distinct (message, payload kind); non-trivial = has at least one attribute",
     );
     rep.assume("HashMap iteration orders are covered by observation (all m! orders of every group seen), not by controlling the hasher");
     let seed = ctx.seed;
